@@ -9,6 +9,7 @@ mod c10;
 mod c11;
 mod c14;
 mod c17;
+mod c18;
 mod c15;
 mod c16;
 mod corpus;
@@ -75,6 +76,7 @@ fn main() {
         "C11" => c11::run(&ctx),
         "C14" => c14::run(&ctx),
         "C17" => c17::run(&ctx),
+        "C18" => c18::run(&ctx),
         "C15" => c15::run(&ctx),
         "C16" => c16::run(&ctx),
         _ => usage(),
@@ -94,6 +96,7 @@ fn replay(id: &str, v: &serde_json::Value) -> i32 {
         "C11" => c11::replay(v),
         "C14" => c14::replay(v),
         "C17" => c17::replay(v),
+        "C18" => c18::replay(v),
         "C15" => c15::replay(v),
         "C16" => c16::replay(v),
         _ => {
